@@ -17,6 +17,7 @@ import (
 	"fmt"
 	"os"
 	"os/exec"
+	"os/user"
 	"path/filepath"
 	"sort"
 	"strings"
@@ -41,12 +42,18 @@ type Input struct {
 	Overlap   []string   `json:"overlap,omitempty"`   // per start: "" | "overlap" (attempted while the previous start's process is still
 	// running on the directory) | "flock" (attempted while the harness holds badger's directory lock)
 	Wiring *Wiring `json:"wiring,omitempty"` // capture channels and [[filter]] sections of every start (nil: only the catch-all)
+	// how the data directory is spelled in each start: abs | slash | dotdot | rel | reldot | relup | tilde | tildeslash
+	// (default abs); Home: the directory lives below the user's home directory (needed for the ~ spellings)
+	Spell []string `json:"spell,omitempty"`
+	Home  bool     `json:"home,omitempty"`
 }
 
 type Obs struct {
 	Disk0 *ChildObs  `json:"disk0"` // persisted state before the first completed start
 	Runs  []ChildObs `json:"runs"`
 	Lock  []bool     `json:"lock_held"` // per start: the directory lock was held elsewhere while it was attempted
+	Data  string     `json:"data_dir"`
+	HomeD string     `json:"home_dir"`
 }
 
 // ---- child orchestration ----
@@ -204,10 +211,62 @@ func spawnX(job Job, dir, tag string, killAfter int) (*ChildObs, string, func())
 	return nil, fmt.Sprintf("process ended without completing the start (%v): %s", err, strings.TrimSpace(string(tail))), nil
 }
 
+var homeScratch string // <home>/.verif-c18-<pid>, created on demand, removed at the end
+
+func homeDir() string {
+	u, err := user.Current() // what server.expand uses for a leading ~
+	if err != nil || u.HomeDir == "" {
+		hx.Fatal("no home directory: %v", err)
+	}
+	return u.HomeDir
+}
+
+// spelled: the string handed to WithDataDir for the spelling kind, given the canonical
+// data directory (its parent is the working directory of the start)
+func spelled(kind, data string) string {
+	parent, base := filepath.Dir(data), filepath.Base(data)
+	switch kind {
+	case "slash":
+		return data + "/"
+	case "dotdot":
+		return parent + "/zz/../" + base
+	case "rel":
+		return base
+	case "reldot":
+		return "./" + base + "/"
+	case "relup":
+		return "../" + filepath.Base(parent) + "/" + base
+	case "tilde", "tildeslash":
+		rel, err := filepath.Rel(homeDir(), data)
+		if err != nil || strings.HasPrefix(rel, "..") {
+			hx.Fatal("data directory %s is not below the home directory", data)
+		}
+		if kind == "tildeslash" {
+			return "~/" + rel + "/"
+		}
+		return "~/" + rel
+	}
+	return data
+}
+
 func runCase(in Input, dir string) (Obs, string) {
 	var ob Obs
 	os.RemoveAll(dir)
 	data := filepath.Join(dir, "data")
+	if in.Home {
+		data = filepath.Join(homeScratch, filepath.Base(dir), "data")
+		os.RemoveAll(filepath.Dir(data))
+		if err := os.MkdirAll(dir, 0o755); err != nil {
+			hx.Fatal("mkdir: %v", err)
+		}
+	}
+	ob.Data, ob.HomeD = data, homeDir()
+	spellOf := func(i int) string {
+		if i < len(in.Spell) && in.Spell[i] != "" {
+			return spelled(in.Spell[i], data)
+		}
+		return data
+	}
 	if err := os.MkdirAll(data, 0o755); err != nil {
 		hx.Fatal("mkdir: %v", err)
 	}
@@ -268,7 +327,8 @@ func runCase(in Input, dir string) (Obs, string) {
 			locked = unlock != nil
 		}
 		tag := fmt.Sprintf("run%d", i)
-		r, crash, stop := spawnX(Job{Mode: "run", DataDir: data, Services: svcs, Wiring: in.Wiring, Hold: mode(i+1) == "overlap"}, dir, tag, -1)
+		r, crash, stop := spawnX(Job{Mode: "run", DataDir: data, Services: svcs, Wiring: in.Wiring, Hold: mode(i+1) == "overlap",
+			Spell: spellOf(i), Cwd: filepath.Dir(data)}, dir, tag, -1)
 		if unlock != nil {
 			unlock()
 		}
@@ -394,7 +454,90 @@ func coqWiring(w *Wiring, r *ChildObs) (string, string, string) {
 	return coqNs(chans), hx.CoqList(filts, "filt"), hx.CoqList(deliv, "(N * list (N * bytes))")
 }
 
+// algorithm / certificate type -> number; 1 = the one key every instance is expected to offer
+var algNum = map[string]int{"ssh-rsa": 1, "tls-rsa": 1, "agent": 1, "rsa-sha2-256": 2, "rsa-sha2-512": 3, "ssh-ed25519": 4,
+	"ecdsa-sha2-nistp256": 5, "ecdsa-sha2-nistp384": 6, "ecdsa-sha2-nistp521": 7, "ssh-dss": 8, "tls-ecdsa": 9, "tls-ed25519": 10}
+
+func coqAlgs(m map[string]hx.B) string {
+	type av struct {
+		a int
+		v hx.B
+	}
+	var xs []av
+	for name, v := range m {
+		n, ok := algNum[name]
+		if !ok {
+			n = 50
+			for _, c := range []byte(name) {
+				n = (n*31 + int(c)) % 100000
+			}
+			n += 50
+		}
+		xs = append(xs, av{n, v})
+	}
+	sort.Slice(xs, func(i, j int) bool { return xs[i].a < xs[j].a })
+	var es []string
+	for _, x := range xs {
+		es = append(es, fmt.Sprintf("(%s, %s)", hx.CoqN(uint64(x.a)), hx.CoqBytes(x.v)))
+	}
+	return hx.CoqList(es, "(N * bytes)")
+}
+
+// spellCtx numbers path components per case and renders home / working directory / data
+// directory and each start's spelling for the model's resolve.
+type spellCtx struct {
+	in   Input
+	ob   Obs
+	nums map[string]int
+}
+
+func (c *spellCtx) num(name string) int {
+	if n, ok := c.nums[name]; ok {
+		return n
+	}
+	n := len(c.nums) + 1
+	c.nums[name] = n
+	return n
+}
+
+func (c *spellCtx) comps(path string) []string {
+	var out []string
+	for _, x := range strings.Split(path, "/") {
+		switch x {
+		case "", ".":
+		case "..":
+			out = append(out, "Up")
+		default:
+			out = append(out, fmt.Sprintf("Name %s", hx.CoqN(uint64(c.num(x)))))
+		}
+	}
+	return out
+}
+
+func (c *spellCtx) names(path string) string {
+	var out []int
+	for _, x := range strings.Split(path, "/") {
+		if x != "" {
+			out = append(out, c.num(x))
+		}
+	}
+	return coqNs(out)
+}
+
+func (c *spellCtx) spell(i int) string {
+	s := c.ob.Data
+	if i < len(c.in.Spell) && c.in.Spell[i] != "" {
+		s = spelled(c.in.Spell[i], c.ob.Data)
+	}
+	tilde, abs := strings.HasPrefix(s, "~"), strings.HasPrefix(s, "/")
+	if tilde {
+		s = s[1:]
+	}
+	return fmt.Sprintf("(mkSpell %s %s %s)", hx.CoqBool(tilde), hx.CoqBool(abs), hx.CoqList(c.comps(s), "comp"))
+}
+
 func coqCase(id int, in Input, ob Obs) string {
+	sp := &spellCtx{in: in, ob: ob, nums: map[string]int{}}
 	var runs []string
 	for i, r := range ob.Runs {
 		var cfg, pub, seen []string
@@ -405,7 +548,7 @@ func coqCase(id int, in Input, ob Obs) string {
 				opt = "(Some " + hx.CoqBytes(d) + ")"
 			}
 			cfg = append(cfg, fmt.Sprintf("mkInst %s %s", coqKind[s], opt))
-			seen = append(seen, hx.CoqBytes(r.Seen[s]))
+			seen = append(seen, coqAlgs(r.Seen[s]))
 		}
 		for _, it := range kvItems {
 			if o, ok := r.KV[it.Name]; ok && o.Present && o.Pub != nil {
@@ -414,20 +557,20 @@ func coqCase(id int, in Input, ob Obs) string {
 		}
 		lock := i < len(ob.Lock) && ob.Lock[i]
 		if r.Failed {
-			runs = append(runs, fmt.Sprintf("mkRun (@nil inst) (@nil N) 0%%N (mkDisk None None []) [] (@nil bytes) [] %s true (@nil N) (@nil filt) []", hx.CoqBool(lock)))
+			runs = append(runs, fmt.Sprintf("mkRun (@nil inst) (@nil N) 0%%N (mkDisk None None []) [] (@nil (list (N * bytes))) [] %s true (@nil N) (@nil filt) [] %s", hx.CoqBool(lock), sp.spell(i)))
 			continue
 		}
 		chans, filts, deliv := coqWiring(in.Wiring, &r)
-		runs = append(runs, fmt.Sprintf("mkRun %s %s %s %s %s %s %s %s false %s %s %s", hx.CoqList(cfg, "inst"), hx.CoqBytes(r.Token),
-			hx.CoqN(uint64(r.TokenSeen)), coqDisk(&r), hx.CoqList(pub, "(item * bytes)"), hx.CoqList(seen, "bytes"), coqBad(&r),
-			hx.CoqBool(lock), chans, filts, deliv))
+		runs = append(runs, fmt.Sprintf("mkRun %s %s %s %s %s %s %s %s false %s %s %s %s", hx.CoqList(cfg, "inst"), hx.CoqBytes(r.Token),
+			hx.CoqN(uint64(r.TokenSeen)), coqDisk(&r), hx.CoqList(pub, "(item * bytes)"), hx.CoqList(seen, "(list (N * bytes))"), coqBad(&r),
+			hx.CoqBool(lock), chans, filts, deliv, sp.spell(i)))
 	}
 	d0 := ob.Disk0
 	if d0 == nil {
 		d0 = &ChildObs{}
 	}
-	return fmt.Sprintf("mkCase %s %s %s %s\n     %s", hx.CoqN(uint64(id)), hx.CoqBool(in.Reachable), coqDisk(d0), coqBad(d0),
-		hx.CoqList(runs, "run"))
+	return fmt.Sprintf("mkCase %s %s %s %s\n     %s\n     %s %s %s", hx.CoqN(uint64(id)), hx.CoqBool(in.Reachable), coqDisk(d0), coqBad(d0),
+		hx.CoqList(runs, "run"), sp.names(ob.HomeD), sp.names(filepath.Dir(ob.Data)), sp.names(ob.Data))
 }
 
 // ---- generation ----
@@ -647,6 +790,41 @@ func generate(r *hx.Rand, tier string) []Input {
 		in.Kind, in.Reachable = "overlap", true
 		ins = append(ins, in)
 	}
+	// (1f) how the data directory is SPELLED, per start: absolute, with a trailing slash, with a
+	// name/.. pair, relative to the working directory (three ways), through ~ (directory below
+	// the user's home); first starts on a fresh directory through every kind of spelling
+	sps := []Input{
+		{Spell: []string{"abs", "rel", "dotdot", "slash", "reldot", "relup"}, Runs: tokenOnly(6)},
+		{Spell: []string{"rel", "rel", "abs"}, Runs: [][]string{{"ssh", "ftp"}, {"ssh"}, {"ssh", "ftp"}}},
+		{Spell: []string{"dotdot", "abs", "relup", "dotdot"}, Runs: tokenOnly(4)},
+		{Home: true, Spell: []string{"tilde", "tilde", "tilde"}, Runs: tokenOnly(3)},
+		{Home: true, Spell: []string{"tilde", "abs", "tildeslash", "rel", "tilde"}, Runs: tokenOnly(5)},
+		{Home: true, Spell: []string{"tilde", "tilde", "abs"}, Runs: [][]string{{"ssh", "agent"}, {"ssh", "smtp"}, {"ssh", "smtp", "agent"}}},
+		{Home: true, Spell: []string{"abs", "tilde", "tilde"}, Runs: tokenOnly(3)},
+	}
+	if big {
+		kinds := []string{"abs", "slash", "dotdot", "rel", "reldot", "relup", "tilde", "tildeslash"}
+		for k := 0; k < 10; k++ {
+			in := Input{Home: k%2 == 0}
+			for i, n := 0, r.Range(3, 5); i < n; i++ {
+				kk := kinds[r.Intn(len(kinds))]
+				if !in.Home && strings.HasPrefix(kk, "tilde") {
+					kk = "rel"
+				}
+				in.Spell = append(in.Spell, kk)
+				if k%3 == 0 {
+					in.Runs = append(in.Runs, genSet(r, 1))
+				} else {
+					in.Runs = append(in.Runs, []string{})
+				}
+			}
+			sps = append(sps, in)
+		}
+	}
+	for _, in := range sps {
+		in.Kind, in.Reachable = "spelling", true
+		ins = append(ins, in)
+	}
 	// (2) restart histories of length 2..5 with varying service sets
 	nh := 6
 	if big {
@@ -724,6 +902,15 @@ func main() {
 	}
 	scratch := filepath.Join(o.Out, "dirs")
 	os.RemoveAll(scratch)
+	homeScratch = filepath.Join(homeDir(), fmt.Sprintf(".verif-c18-%d", os.Getpid()))
+	defer os.RemoveAll(homeScratch)
+	if old, _ := filepath.Glob(filepath.Join(homeDir(), ".verif-c18-*")); len(old) > 0 { // left by an aborted run
+		for _, d := range old {
+			if fi, err := os.Stat(d); err == nil && time.Since(fi.ModTime()) > 2*time.Hour {
+				os.RemoveAll(d)
+			}
+		}
+	}
 	type res struct {
 		ob    Obs
 		crash string
@@ -786,5 +973,6 @@ func main() {
 	if o.Only == "" {
 		os.RemoveAll(scratch)
 	}
+	os.RemoveAll(homeScratch)
 	hx.Write(o, "C18", "identity", "From HT Require Import Common.Bytes C18.Model C18.Check.", "case", cases, dist, nil, 100)
 }
